@@ -3,7 +3,7 @@
 From Coq Require Import List ZArith Bool.
 Import ListNotations.
 From Zn.model Require Import SemDefs Sem.
-From Zn.proofs Require Import SemBase SemStmt SemCalls SemProps.
+From Zn.proofs Require Import SemBase SemStmt SemCalls SemProps SemCopy.
 Open Scope Z_scope.
 
 (* The control-state balance of the whole evaluator: for EVERY fuel, state and expression (calls, method chains, 新建,
@@ -23,7 +23,7 @@ Print Assumptions C08_call_restores_caller.
 
 Theorem C08_failed_call_keeps_callers : forall n st e er s1,
   wf st -> eval_expr n st e = Er er s1 ->
-  (exists extra f f' tl, stack st = f :: tl /\ stack s1 = extra ++ f' :: tl /\ frame_sim f' f) /\
+  (exists extra, stack s1 = extra ++ stack st) /\       (* the caller's frames are untouched, the failed calls' sit on top *)
   depth s1 = depth st /\ no_sig er.
 Proof. exact expr_error_keeps_callers. Qed.
 Print Assumptions C08_failed_call_keeps_callers.
@@ -73,5 +73,14 @@ Proof. exact unknown_method_is_error. Qed.
 Print Assumptions C08_unknown_method_error.
 
 (* non-vacuity: the initial state of a program run is well formed *)
+(* every object created with 新建 starts from its own copies of the type's default values: the new cell holds, property
+   by property, duplicates (value.DuplicateValue: fresh cells, equal contents — C07) of the defaults, made at creation *)
+Theorem C08_new_object_copies_defaults : forall fuel st c cd v s2,
+  new_object fuel st c cd = Ok v s2 ->
+  exists props s1, dups_of fuel st (c_props cd) props s1 /\
+                   v = VObj (length (heap s1)) /\ s2 = snd (alloc s1 (CObj c props)).
+Proof. exact new_object_copies_defaults. Qed.
+Print Assumptions C08_new_object_copies_defaults.
+
 Example C08_wf_initial : wf (push_frame init_state 1 None).
 Proof. split; [discriminate|constructor]. Qed.
